@@ -12,6 +12,8 @@ fn apply<R: RealNumberInternalTrait>(
     arguments: impl IntoIterator<Item = Value<R>>,
     env: Rc<Environment<R>>,
 ) -> Result<Value<R>> {
+    #[cfg(ruschm_verif)]
+    let _verif_depth = crate::verif::enter();
     let mut iter = arguments.into_iter();
     let proc = iter.next().unwrap().expect_procedure()?;
     let mut args = iter.collect::<ArgVec<R>>();
